@@ -2,6 +2,7 @@ package main
 
 import (
 	"bytes"
+	"encoding/base64"
 	"encoding/json"
 	"fmt"
 	"regexp"
@@ -147,7 +148,7 @@ func evalCreds(c *Ctx, tok string, seedKP nkeys.KeyPair, nl string, lead string)
 }
 
 func runC15(c *Ctx) {
-	c.Res.Rule = "user tokens from ~150 to ~4000 characters, and every fifteenth one very long (about 64 KiB to 130 KiB) (every base64url character class occurs) x user / account / operator seeds x LF / CRLF x leading blank lines (and seeds handed over with surrounding blanks, tabs or line ends): FormatUserConfig -> ParseDecoratedJWT / ParseDecoratedNKey / ParseDecoratedUserNKey must return the same token text and a key pair with the same seed and public key; DecorateJWT of every claim kind parses back unchanged, also when the returned slice is kept and parsed again after later DecorateJWT / FormatUserConfig calls; a bare token parses to itself; non-user tokens / seeds are refused; the user-only key parser refuses operator and account seeds, also in indented (spaces / tabs), CRLF and bare-seed renderings and inside a full credentials file. The model's hand matcher is compared with Go's regexp on structured adversarial text (dash runs of 2/3/5/6, dashes inside token lines, missing final newline, CR placement). non-trivial = distinct texts."
+	c.Res.Rule = "user tokens from ~150 to ~4000 characters, and every fifteenth one very long (about 64 KiB to 130 KiB) (every base64url character class occurs; some tokens are searched for so that their own text contains a word of the decoration template: KIND, USER, SEED, NKEY, …) x user / account / operator seeds x LF / CRLF x leading blank lines (and seeds handed over with surrounding blanks, tabs or line ends): FormatUserConfig -> ParseDecoratedJWT / ParseDecoratedNKey / ParseDecoratedUserNKey must return the same token text and a key pair with the same seed and public key; DecorateJWT of every claim kind parses back unchanged, also when the returned slice is kept and parsed again after later DecorateJWT / FormatUserConfig calls; a bare token parses to itself; non-user tokens / seeds are refused; the user-only key parser refuses operator and account seeds, also in indented (spaces / tabs), CRLF and bare-seed renderings and inside a full credentials file. The model's hand matcher is compared with Go's regexp on structured adversarial text (dash runs of 2/3/5/6, dashes inside token lines, missing final newline, CR placement). non-trivial = distinct texts."
 	// ---- round trips
 	for i := 0; i < c.N(60, 3000); i++ {
 		u := jwt.NewUserClaims(pubOf(kpN('U', c.R.Intn(4))))
@@ -170,6 +171,51 @@ func runC15(c *Ctx) {
 		if i == 0 {
 			cfg, _ := jwt.FormatUserConfig(tok, seedOf(kpN('U', 0)))
 			c.Sample(map[string]string{"credentials_file": string(cfg)})
+		}
+	}
+	// ---- tokens whose own text contains a word of the decoration template (KIND, USER, SEED, NKEY, NATS, JWT): the
+	// decoration must treat the token as opaque text. Such tokens are found by search: a two-byte rune followed by
+	// digits, at the three possible alignments, whose base64url text contains the word.
+	{
+		words := []string{"KIND", "USER", "SEED", "NKEY", "NATS", "-JWT", "JWT-", "TOKEN"}
+		found := map[string]int{}
+		for r := rune(0x80); r < 0x800 && len(found) < 6; r++ {
+			for _, tail := range []string{"", "0", "4", "40", "7", "07", "9"} {
+				frag := string(r) + tail
+				hit := ""
+				for pad := 0; pad < 3 && hit == ""; pad++ {
+					enc := base64.RawURLEncoding.EncodeToString([]byte(strings.Repeat("a", pad) + frag + "aaa"))
+					for _, w := range words {
+						if strings.Contains(enc, w) {
+							hit = w
+						}
+					}
+				}
+				if hit == "" || found[hit] >= 2 {
+					continue
+				}
+				for pad := 0; pad < 3; pad++ {
+					u := jwt.NewUserClaims(pubOf(kpN('U', 1)))
+					u.Name = strings.Repeat("a", pad) + frag + "aaa"
+					tok, err := u.Encode(kpN('A', 1))
+					if err != nil || !strings.Contains(tok, hit) {
+						continue
+					}
+					found[hit]++
+					c.Count("token-containing-template-word:" + hit)
+					evalCreds(c, tok, kpN('U', 2), "\n", "")
+					evalCreds(c, tok, kpN('U', 2), "\r\n", "\n")
+					var out []byte
+					var derr error
+					if p := safeCreds(func() { out, derr = jwt.DecorateJWT(tok) }); p != "" || derr != nil {
+						c.Violate("decorate", "DecorateJWT failed on a decodable token", c15Replay{"decorate", "", tok, ""})
+						continue
+					}
+					if back, _ := jwt.ParseDecoratedJWT(out); back != tok {
+						c.Violate("token-roundtrip", "decorating a token whose text contains the word "+hit+" and parsing it back returns a different token", c15Replay{"decorate", string(out), tok, ""})
+					}
+				}
+			}
 		}
 	}
 	// ---- refusals: non-user tokens, non-user seeds
